@@ -110,7 +110,8 @@ def run(ck):
             continue
         if st["pl"]["p"]:
             continue
-        if T.resolves_to_call(b, st["rv"]["o"], [cs.bb for cs in takes]) and f.adt_path(st["pl"]["t"]) == PA:
+        take_dests = {cs.dest["l"] for cs in takes if not cs.dest["p"]}
+        if (T.copy_chain_locals(b, st["rv"]["o"]) & take_dests) and f.adt_path(st["pl"]["t"]) == PA:
             # skip the copy chain temporaries: keep stores into a local that is later switched on
             merges.append((i, j, st))
     # the merged variable is the one the post-action switch looks at
@@ -120,7 +121,12 @@ def run(ck):
         raise AnchorMissing("post-action switch")
     sw = pa_switches[0]
     ret_local = b.expr(b.blocks[sw]["term"]["on"])[2]["l"]
-    merges = [m for m in merges if m[2]["pl"]["l"] == ret_local]
+    # the switched-on value may be a copy of the variable the merge writes (argument of an inlined helper)
+    ret_locals = T.copy_chain_locals(b, b.expr(b.blocks[sw]["term"]["on"])[2]) | {ret_local}
+    merged = [m for m in merges if m[2]["pl"]["l"] in ret_locals]
+    if merged:
+        ret_local = merged[0][2]["pl"]["l"]
+    merges = merged
     cont = T.variant_discr(f, PA, "Continue")
     if not merges:
         ck.violation("2", "T4-guarded-by", b, "merge:ret=pending", "the deferred action is never merged into the post-action that is applied (a self-directed disable()/update() from a callback would be lost)", site=b.where(sw))
